@@ -74,13 +74,13 @@ def _weights(prop, rng):
                  add_attackers_late=2, new_generated=3)
     elif prop == 'C12':
         w.update(surface_query=6, surface_update=8, compromise=4, relabel=6, analyse=2,
-                 defense_query=3, prune=0, regenerate=2, model_edit=1, saveload=0, copy=0,
+                 defense_query=3, edit_inplace=2, prune=0, regenerate=2, model_edit=1, saveload=0, copy=0,
                  remove_node=1)
     elif prop == 'C13':
         w.update(prune=6, relabel=10, analyse=3, compromise=4, add_attacker=3, link=8)
     elif prop == 'C14':
-        w.update(copy=5, edit_inplace=6, compromise=5, remove_node=3, relabel=3, prune=1,
-                 regenerate=1, saveload=0)
+        w.update(copy=5, edit_inplace=6, compromise=8, add_attacker=4, remove_node=3, relabel=3,
+                 prune=1, regenerate=1, saveload=0)
     # swarm: switch some kinds off in this run
     for k in list(w):
         if w[k] and k not in KEY_KIND.get(prop, ()) and k not in ('new_generated', 'new_hand',
@@ -481,6 +481,9 @@ class GraphWorld(BaseWorld):
         if not live:
             kind = 'new_hand' if rng.random() < self.cfg.get('p_hand', 0.5) else 'new_generated'
             return getattr(self, 'gen_' + kind)(rng, None)
+        want, self._copy_next = getattr(self, '_copy_next', None), None
+        if self.prop == 'C14' and want in live and len(live) < 4 and rng.random() < 0.5:
+            return self.gen_copy(rng, want)
         table = [(w[k], k) for k in sorted(w) if w[k] > 0]
         if len(live) >= 4:
             table = [(x, k) for x, k in table if k not in ('new_generated', 'new_hand', 'copy')]
@@ -505,7 +508,7 @@ class GraphWorld(BaseWorld):
              'extras': copy.deepcopy(rng.choice(NODE_EXTRAS)),
              'mitre': rng.choice([None, None, 'T1078', ''])}
         if typ == 'defense':
-            d['defense_status'] = rng.choice([0.0, 1.0, 0.5, 1.0, 0.0])
+            d['defense_status'] = rng.choice([0.0, 1.0, 0.5, 1.0, 0.0, 0.9999999999999999])
             d['ttc'] = copy.deepcopy(rng.choice(TTCS[:5]))
         if typ in ('exist', 'notExist'):
             d['existence_status'] = rng.random() < 0.5
@@ -576,6 +579,16 @@ class GraphWorld(BaseWorld):
         if len(s.ref.attacker_order) >= 4:
             return None
         used = {a.id for a in s.ref.attackers.values()}
+        if s.ref.attacker_order and rng.random() < 0.12:
+            # an attacker that already is in the graph is offered again: under the id of
+            # another attacker, under a free id, or without one
+            k = rng.choice(s.ref.attacker_order)
+            others = sorted(used - {s.ref.attackers[k].id})
+            how = rng.choice(['other', 'other', 'free', 'none']) if others else rng.choice(['free', 'none'])
+            kid = {'other': rng.choice(others) if others else None, 'free': max(used) + rng.choice([1, 5]),
+                   'none': None}[how]
+            return {'op': 'readd_attacker', 'g': gi, 'k': k, 'id': kid,
+                    'then_remove': rng.random() < 0.5}
         r = rng.random()
         kid = None
         if r < 0.2:
@@ -630,7 +643,13 @@ class GraphWorld(BaseWorld):
             return None
         k = rng.choice(s.ref.attacker_order)
         a = s.ref.attackers[k]
-        if a.reached and rng.random() < 0.25:
+        others = [h for k2 in s.ref.attacker_order[s.ref.attacker_order.index(k) + 1:]
+                  for h in s.ref.attackers[k2].reached if h not in a.reached]
+        if others and rng.random() < (0.6 if self.prop == 'C14' else 0.3):
+            # a step that an attacker further down the list already holds: the node then
+            # lists its attackers in another order than the graph does
+            h = rng.choice(others)
+        elif a.reached and rng.random() < 0.25:
             h = rng.choice(a.reached)               # second compromise: no-op
         elif a.reached and rng.random() < 0.5:
             # adjacent to something reached
@@ -755,6 +774,12 @@ class GraphWorld(BaseWorld):
             what = 'tags'
         if self.prop == 'C14' and rng.random() < 0.08:
             what = 'uncopyable'
+        defs = [x for x in s.ref.order if s.ref.nodes[x].type == 'defense']
+        if defs and rng.random() < (0.8 if self.prop == 'C12' else 0.2):
+            # a defense switched in the graph: whole numbers the way a caller writes them,
+            # and values a hair away from the two ends
+            return {'op': 'edit_inplace', 'g': gi, 'n': rng.choice(defs), 'what': 'defense',
+                    'value': rng.choice([1, 0, 1, 0.9999999999999999, 1e-12, 0.5, 1.0, 0.0])}
         return {'op': 'edit_inplace', 'g': gi, 'n': h, 'what': what,
                 'value': rng.choice(['zz', 'q1', 'edited'])}
 
@@ -992,6 +1017,9 @@ class GraphWorld(BaseWorld):
             self.count('fault:rejected_attacker_id_in_use')
             if not o.raised:
                 self.fail('C09.index', f'{where}: attacker id in use was accepted')
+            if att.id is not None:
+                self.fail('C09.index', f'{where} was refused ({o.exc!r}) but the offered attacker '
+                          f'now carries id {att.id!r}')
             self.check_all(where + ' [rejected]', only=op['g'])
             return 'rejected'
         if o.raised:
@@ -1012,6 +1040,46 @@ class GraphWorld(BaseWorld):
         self._touch(s)
         self.check_all(where, only=op['g'])
         return 'ok'
+
+    def do_readd_attacker(self, op):
+        """add_attacker with an attacker that already is part of this graph.  Whatever the
+        call does (refuse, or move the attacker to the new id), afterwards the graph has
+        every attacker once, under one id, and the lookups agree; a refused call changes
+        nothing - not even the id the attacker carries."""
+        s = self.slot(op['g'])
+        k = op['k']
+        if k not in s.amap or k not in s.ref.attackers:
+            raise Unresolvable()
+        att = s.amap[k]
+        ra = s.ref.attackers[k]
+        kid = op.get('id')
+        used = {a.id for a in s.ref.attackers.values()}
+        kw = {} if kid is None else {'attacker_id': kid}
+        where = f'add_attacker(<attacker {ra.id} of this graph>, id={kid})'
+        o = call(s.g.add_attacker, att, **kw)
+        self.count('fault:attacker_offered_again')
+        if o.raised:
+            if not isinstance(o.exc, (ValueError, KeyError, LookupError)) \
+                    and 'Exception' not in type(o.exc).__name__:
+                self.fail('C09.must_not_raise', f'{where} raised {o.exc!r}')
+            if att.id != ra.id:
+                self.fail('C09.index', f'{where} was refused ({o.exc!r}) but the attacker now '
+                          f'carries id {att.id!r} instead of {ra.id}')
+        else:
+            if kid is not None and kid in used and kid != ra.id:
+                self.fail('C09.index', f'{where}: attacker id in use was accepted')
+            ra.id = att.id
+        self.check_all(where, only=op['g'])
+        if op.get('then_remove'):
+            o = call(s.g.remove_attacker, att)
+            if o.raised:
+                self.fail('C11.must_not_raise', f'{where}; remove_attacker raised {o.exc!r}')
+            s.ref.remove_attacker(k)
+            del s.amap[k]
+            s.surface.pop(k, None)
+            self._touch(s)
+            self.check_all(where + '; remove_attacker', only=op['g'])
+        return 'refused' if o.raised else 'ok'
 
     def do_add_attackers_late(self, op):
         """Two attackers act on nodes before they are registered with the graph
@@ -1105,6 +1173,10 @@ class GraphWorld(BaseWorld):
             if not was:
                 self.count('probe:undo_of_not_compromised')
         else:
+            if not was and any(op['n'] in ref.attackers[k2].reached for k2 in
+                               ref.attacker_order[ref.attacker_order.index(op['k']) + 1:]):
+                self.count('probe:compromised_step_held_by_later_attacker')
+                self._copy_next = op['g']           # (C14) worth copying in exactly this state
             ref.compromise(op['k'], op['n'])
             s.surface.pop(op['k'], None)    # not maintained through this path
             if was:
@@ -1205,6 +1277,10 @@ class GraphWorld(BaseWorld):
         if o.raised:
             self.fail('C14.equal', f'copy.deepcopy(graph) raised {o.exc!r}')
         g2 = o.value
+        apos_ = {id(a): i for i, a in enumerate(s.g.attackers)}
+        if any([apos_.get(id(a), -1) for a in n.compromised_by]
+               != sorted(apos_.get(id(a), -1) for a in n.compromised_by) for n in s.g.nodes):
+            self.count('probe:copied_with_compromise_order_unlike_attacker_order')
         s2 = Slot(g2, s.ref.clone(), s.kind)
         s2.copied_from = op['g']
         s2.uncopyable = s.uncopyable
@@ -1603,6 +1679,14 @@ class GraphWorld(BaseWorld):
         elif what == 'extras':
             node.extras[val] = {'v': 1}
             rn.extras[val] = {'v': 1}
+        elif what == 'defense':
+            if rn.type != 'defense':
+                raise Unresolvable()
+            node.defense_status = val
+            rn.defense_status = val
+            self.count('probe:defense_switched_in_graph')
+            if val not in (0, 1, 0.5):
+                self.count('probe:defense_status_next_to_bound')
         elif what == 'uncopyable':
             import threading
             node.extras['nested'] = {'list': [1, 2]}
